@@ -20,10 +20,14 @@ PROPS["C15"] = {
     "jobs": [
         Job("parse", "H_rawtext", "0..4", workers=8),
         Job("parse", "H_rawtextBytes", "1..3", workers=8),
+        Job("soyhtml", "H_textlex", "0..3,0..2", workers=16, maxfan=16),
+        Job("soyhtml", "H_literal", "0..3", workers=8, maxfan=16),
         Job("parse", "H_rawtext", "5", tier="thorough", workers=16),
+        Job("soyhtml", "H_textlex", "4,0..2", tier="thorough", workers=16, maxfan=16),
+        Job("soyhtml", "H_textlex", "5,0", tier="thorough", workers=16, maxfan=16),
     ],
-    "bounds_quick": "rawtext(s,trimBefore,trimAfter) vs the line-joining rule: every ASCII string (bytes 1..127) of length <= 4 with both flags symbolic; order-preservation of non-whitespace bytes over all 256 byte values for length <= 3",
-    "bounds_thorough": "as quick, ASCII length <= 5",
+    "bounds_quick": "rawtext(s,trimBefore,trimAfter) vs the line-joining rule: every ASCII string (bytes 1..127) of length <= 4 with both flags symbolic; order-preservation of non-whitespace bytes over all 256 byte values for length <= 3; the whole chain lexer -> text/comment tokens -> rawtext -> render for every template body of <= 3 characters over {a < > space LF CR / * :} between prints, at template start and at template end (comment-free: exact output; with comments: exactly the non-whitespace characters outside comments; unclosed block comment: error); literal blocks of <= 3 characters over {a space { } LF / < *} and all special-character commands",
+    "bounds_thorough": "as quick, ASCII length <= 5; template bodies of 4 characters in all contexts and 5 between prints",
     "outside": "longer text runs",
     "assumptions": ["refRawtext (harness) is the statement's rule written over maximal whitespace runs"],
     "level_text": "Bounded symbolic model checking of the real normaliser: for every text run up to the length bound the solver proves, path by path, that the output equals the line-joining rule; no sampling inside the bound.",
@@ -51,12 +55,12 @@ PROPS["C03"] = {
 # ---------------------------------------------------------------- C12
 PROPS["C12"] = {
     "jobs": [
-        Job("soyhtml", "H_fault", "0..5,0..3,0", workers=16),
-        Job("soyhtml", "H_fault", "0..5,0..1,1", workers=16),
-        Job("soyhtml", "H_fault", "0..5,0..3,2..3", workers=16, maxfan=300),
-        Job("soyhtml", "H_fault", "0..5,2..3,1", tier="thorough", workers=16),
+        Job("soyhtml", "H_fault", "0..6,0..3,0", workers=16),
+        Job("soyhtml", "H_fault", "0..6,0..1,1", workers=16),
+        Job("soyhtml", "H_fault", "0..6,0..3,2..3", workers=16, maxfan=300),
+        Job("soyhtml", "H_fault", "0..6,2..3,1", tier="thorough", workers=16),
     ],
-    "bounds_quick": "6 templates covering every write site of the tree walker (raw text, escaped/unescaped print, css, literal, special chars, msg text/html tag/placeholder, let and param content blocks, log, call, data=all call, foreach, switch) x 4 data strings; four writer models: sticky failure from a symbolically chosen Write call, the same with a symbolic accepted prefix of the failing call (2 data strings), a writer with a symbolic byte capacity that still accepts empty writes once full, and a transient failure of exactly one symbolically chosen call",
+    "bounds_quick": "7 templates covering every write site (incl. loops over 9 and 10 items) of the tree walker (raw text, escaped/unescaped print, css, literal, special chars, msg text/html tag/placeholder, let and param content blocks, log, call, data=all call, foreach, switch; the msg template also with a translating message bundle) x 4 data strings; four writer models: sticky failure from a symbolically chosen Write call, the same with a symbolic accepted prefix of the failing call (2 data strings), a writer with a symbolic byte capacity that still accepts empty writes once full, and a transient failure of exactly one symbolically chosen call",
     "bounds_thorough": "short writes for all 4 data strings",
     "outside": "templates other than the listed ones; writers that fail and later recover",
     "assumptions": ["writer models as listed in bounds; a write that fails accepts a prefix of its argument"],
@@ -68,16 +72,16 @@ PROPS["C12"] = {
 def parse_jobs():
     return [
         Job("parse", "H_validFile", "", workers=1),
-        Job("parse", "H_parseCtx", "0..55,0..1,false", workers=16, maxsteps=300000),
+        Job("parse", "H_parseCtx", "0..59,0..1,false", workers=16, maxsteps=300000),
         Job("parse", "H_exprCtx", "0..21,0..2,false", workers=16, maxsteps=300000),
-        Job("parse", "H_parseCtx", "0..55,2,false", workers=16, maxsteps=300000, note="k=2"),
+        Job("parse", "H_parseCtx", "0..59,2,false", workers=16, maxsteps=300000, note="k=2"),
         Job("parse", "H_prefix", "0..738,0", workers=16, maxsteps=600000, note="every prefix"),
         Job("parse", "H_prefix", "0..738,1", tier="thorough", workers=16, maxsteps=600000, note="every prefix + 1 symbolic byte"),
-        Job("parse", "H_parseCtx", "0..55,3,true", tier="thorough", workers=16, maxsteps=300000, note="k=3 ascii"),
+        Job("parse", "H_parseCtx", "0..59,3,true", tier="thorough", workers=16, maxsteps=300000, note="k=3 ascii"),
         Job("parse", "H_exprCtx", "0..21,3,true", tier="thorough", workers=16, maxsteps=300000, note="k=3 ascii"),
     ]
 
-PARSE_BOUNDS_Q = "parse.SoyFile on 56 concrete lexer/parser contexts followed by k <= 2 symbolic bytes (all 256 values); parse.Expr on 22 contexts with k <= 2; every prefix of a 738-byte valid file using every command; step bound 300000 (600000 for prefixes) SSA instructions per path acts as the unwinding assertion"
+PARSE_BOUNDS_Q = "parse.SoyFile on 60 concrete lexer/parser contexts followed by k <= 2 symbolic bytes (all 256 values); parse.Expr on 22 contexts with k <= 2; every prefix of a 738-byte valid file using every command; step bound 300000 (600000 for prefixes) SSA instructions per path acts as the unwinding assertion"
 PARSE_BOUNDS_T = PARSE_BOUNDS_Q + "; thorough adds k = 3 over ASCII for all contexts and every prefix + 1 symbolic byte"
 
 PROPS["C05"] = {
@@ -107,10 +111,11 @@ PROPS["C10"] = {
         Job("soymsg", "H_id", "0..4,0..2", workers=8, qtimeout=3000, allow_inconclusive=True),
         Job("soymsg", "H_names", "0..9,-1..3", workers=16),
         Job("soymsg", "H_baseName", "1..4", workers=16, maxfan=16),
+        Job("soyhtml", "H_msgPositions", "0..13", workers=8),
         Job("soymsg", "H_fp", "26..40", tier="thorough", workers=8, qtimeout=3000, allow_inconclusive=True, note="3 blocks"),
         Job("soymsg", "H_id", "5..13,0..3", tier="thorough", workers=8, qtimeout=3000, allow_inconclusive=True, note="longer text"),
     ],
-    "bounds_quick": "fingerprint vs the official algorithm for every byte string of each length 0..25 (0, 1 and 2 twelve-byte blocks, every tail length); calcID with symbolic text (<= 4 bytes), description (2 bytes, two independent copies) and meaning (<= 2 bytes); base-name derivation (toUpperUnderscore and genBasePlaceholderName) for every identifier of <= 4 characters over {a,b,A,B,1,2,_} against a regexp-free reference; placeholder naming for a dictionary of 10 messages under an arbitrary iteration order of each of the 4 map loops of setPlaceholderNames, one loop at a time",
+    "bounds_quick": "fingerprint vs the official algorithm for every byte string of each length 0..25 (0, 1 and 2 twelve-byte blocks, every tail length); calcID with symbolic text (<= 4 bytes), description (2 bytes, two independent copies) and meaning (<= 2 bytes); base-name derivation (toUpperUnderscore and genBasePlaceholderName) for every identifier of <= 4 characters over {a,b,A,B,1,2,_} against a regexp-free reference; the id/placeholder pass (parsepasses.ProcessMessages) on a message placed in 14 containers (if/elseif/else, switch cases, foreach/ifempty, for, let content, call param content - also nested -, log) against the same message at top level; placeholder naming for a dictionary of 10 messages under an arbitrary iteration order of each of the 4 map loops of setPlaceholderNames, one loop at a time",
     "bounds_thorough": "fingerprint lengths up to 40; text up to 13 bytes, meaning up to 3",
     "outside": "strings longer than the bound; collision-freeness (a 63-bit id cannot be injective); the branch hi==0 && lo in {0,1} is a hash pre-image question: explored under a 3 s query timeout and counted as inconclusive when the solver gives up; several map loops permuted at once (only one loop's order influences the result, shown per loop); across-process stability follows from calcID reading nothing but the node",
     "assumptions": ["refFingerprint/refID/refNames (harness) are transliterations of the official SoyMsgIdComputer and MsgNode.genSubstUnitInfo; refID is validated on every run against the official ids pinned in soy's tests"],
@@ -173,12 +178,13 @@ PROPS["C06"] = {
         Job("soyhtml", "H_func", "0..13,0..3,0..8,0..8,0..2", workers=16, maxsteps=400000, hang_timeout=4.0, allow_unsupported=(r"math\.Pow\(symbolic\)",)),
         Job("soyhtml", "H_binop", "0..13,0..8,0..8", workers=16),
         Job("soyhtml", "H_evalExpr", "0..13,0..8", workers=8),
+        Job("soyhtml", "H_directive", "0..11,0..2,0..8,0..8,0..2", workers=16, allow_unsupported=(r"encoding/json|reflect|strconv\.FormatFloat",)),
         Job("soyhtml", "H_renderFail", "0..11,0..2,false", workers=8),
         Job("soyhtml", "H_renderFail", "0..11,0..2,true", workers=8),
         Job(".", "H_globals", "0..28,true", workers=8),
         Job(".", "H_globals", "0..28,false", workers=4),
     ],
-    "bounds": "every built-in function (and an unknown one) with 0..3 arguments of any of 9 value kinds (third argument int/string/undefined), ints in [-4,4]; every binary operator on every operand kind pair; soyhtml.EvalExpr on every operator with an undefined/erroring/well-typed left operand; 12 failing commands at call depth 0..2 in a bundle with and without a second file that redefines the same template names; soy.ParseGlobals on 29 valid/erroring/malformed definitions (incl. truncated escapes and unterminated literals); step bound 400000 as unwinding assertion",
+    "bounds": "every built-in function (and an unknown one) with 0..3 arguments of any of 9 value kinds (third argument int/string/undefined), ints in [-4,4]; every binary operator on every operand kind pair; every built-in print directive (and an unknown one) with 0..2 arguments of any kind on a value of any kind (json only on concrete-shaped values); soyhtml.EvalExpr on every operator with an undefined/erroring/well-typed left operand; 12 failing commands at call depth 0..2 in a bundle with and without a second file that redefines the same template names; soy.ParseGlobals on 29 valid/erroring/malformed definitions (incl. truncated escapes and unterminated literals); step bound 400000 as unwinding assertion",
     "outside": "user-registered functions and directives; data recursion deeper than 2; file-system loading",
     "assumptions": ["rand.Int63n returns an arbitrary value in range"],
     "level_text": "Bounded symbolic model checking: ill-typed use is the input space - argument kinds are enumerated, payloads symbolic; an escaping panic, a deadlock or a path exceeding the step bound is an engine verdict that is then reproduced natively.",
@@ -223,10 +229,10 @@ PROPS["C13"] = {
         Job("soyjs", "H_jsPure", "0..2,true", workers=2, note="repeated generation from one registry"),
         Job("soyjs", "H_jsOrder", "0..2,-1..3,false", workers=8, timeout=300),
         Job("soyjs", "H_jsOrder", "0..2,-1..3,true", workers=8, timeout=300),
-        Job(".", "H_bundle", "0..6,0", workers=8, timeout=400, per_map_site=r"^(ast|data|parse|parsepasses|soyhtml|soyjs|soymsg|template|bundle|globals)"),
-        Job(".", "H_bundle", "0..6,1..5", workers=8, timeout=400, note="file insertion orders"),
+        Job(".", "H_bundle", "0..7,0", workers=8, timeout=400, per_map_site=r"^(ast|data|parse|parsepasses|soyhtml|soyjs|soymsg|template|bundle|globals)"),
+        Job(".", "H_bundle", "0..7,1..5", workers=8, timeout=400, note="file insertion orders"),
     ],
-    "bounds": "real soy.NewBundle().AddTemplateString(..).AddGlobalsMap(..).Compile() + Tofu rendering + soyjs.Write (ES5 and ES6) for 7 bundles (valid with messages/globals/map literals/cross-file calls; rejected by the data-ref checker, the parser, the globals pass; two independent errors; duplicate template name); every map-range site reached in the soy packages is given an arbitrary iteration order, one site at a time (all permutations up to 5 keys; for larger maps an arbitrary key first and an arbitrary key last); all 6 insertion orders of up to 3 files",
+    "bounds": "real soy.NewBundle().AddTemplateString(..).AddGlobalsMap(..).Compile() + Tofu rendering + soyjs.Write (ES5 and ES6) for 8 bundles, each compiled twice from the same Bundle object and a third time through CompileToTofu (valid with messages/globals/map literals/cross-file calls; rejected by the data-ref checker, the parser, the globals pass; two independent errors; duplicate template name; header params without soydoc); every map-range site reached in the soy packages is given an arbitrary iteration order, one site at a time (all permutations up to 5 keys; for larger maps an arbitrary key first and an arbitrary key last); all 6 insertion orders of up to 3 files",
     "outside": "two or more loops permuted simultaneously (order dependence that needs a particular combination); bundles outside the dictionary; file-system loading and the watcher",
     "assumptions": ["Go's randomised map iteration is modelled as an arbitrary permutation chosen through solver-visible choice variables; one-site-at-a-time argument of DESIGN 2.6"],
     "level_text": "Bounded symbolic model checking with the environment's nondeterminism (map iteration order, file insertion order) as the symbolic input: every result of compile, render and generate is compared with the reference run for every order within the bound.",
@@ -250,17 +256,18 @@ PROPS["C17"] = {
 
 # ---------------------------------------------------------------- C19
 PROPS["C19"] = {
-    "viol_filter": r"^(C19:|harness)",
+    "viol_filter": r"^(C19:|C12:|harness)",
     "jobs": [
         Job("parse", "H_errpos", "0..11,0..2,4", workers=16),
         Job("soyhtml", "H_rendererr", "0..2,4,false", workers=8),
         Job("soyhtml", "H_rendererr", "0..2,4,true", workers=8, note="both files in one namespace"),
-        Job("parse", "H_parseCtx", "0..55,0..1,false", workers=16, maxsteps=300000),
+        Job("soyhtml", "H_writeerrpos", "3", workers=8),
+        Job("parse", "H_parseCtx", "0..59,0..1,false", workers=16, maxsteps=300000),
         Job("parse", "H_exprCtx", "0..21,0..1,false", workers=16, maxsteps=300000),
-        Job("parse", "H_parseCtx", "0..55,2,false", tier="thorough", workers=16, maxsteps=300000, note="k=2"),
+        Job("parse", "H_parseCtx", "0..59,2,false", tier="thorough", workers=16, maxsteps=300000, note="k=2"),
         Job("parse", "H_errpos", "0..11,0..2,7", tier="thorough", workers=16, note="7 lines"),
     ],
-    "bounds": "parse errors: 12 fault kinds injected on a symbolically chosen line of a 4-line (thorough 7) template body with LF, CRLF and blank-line separators: file name, exact line (point faults) or line within [construct start, end of input] (constructs left open), same numbers in the message text; on the C05 context harnesses (arbitrary symbolic bytes) every parse error carries the given file name and a line within 1..1+count(LF). Render errors: failing command on a symbolically chosen line at call depth 0..2 across two files (in different namespaces and in one shared namespace)",
+    "bounds": "parse errors: 12 fault kinds injected on a symbolically chosen line of a 4-line (thorough 7) template body with LF, CRLF and blank-line separators: file name, exact line (point faults) or line within [construct start, end of input] (constructs left open), same numbers in the message text; on the C05 context harnesses (arbitrary symbolic bytes) every parse error carries the given file name and a line within 1..1+count(LF). Render errors: failing command on a symbolically chosen line at call depth 0..2 across two files (in different namespaces and in one shared namespace); render errors caused by a write failure at a symbolically chosen write of a 3-line template",
     "outside": "column numbers are only required to agree between ErrFilePos and the message text; files longer than the bound",
     "assumptions": [],
     "level_text": "Bounded symbolic model checking: the fault position is a solver-chosen value and, on the context harnesses, the whole input suffix is symbolic; position bookkeeping of every error path reached is compared with the injected position.",
@@ -347,8 +354,9 @@ PROPS["C11"] = {
         Job("soymsg/pomsg", "H_roundtrip", "0..5,0..2,0..2", workers=16, timeout=900),
         Job("soymsg/pomsg", "H_plural", "1..3", workers=8, timeout=600),
         Job("soymsg/pomsg", "H_catalogue", "0..3", workers=8, timeout=600),
+        Job("soymsg/pomsg", "H_sameID", "0..2", workers=8, timeout=600),
     ],
-    "bounds": "6 messages (text only; text + placeholders; repeated equal expressions; html tags; two expressions that differ only in parenthesisation; colliding placeholder base names) in 3 contexts (plain, inside a foreach, inside a called template) x 3 catalogues built with the real extraction functions (pomsg.Validate/Msgid/MsgidPlural -> newMessage -> soymsg.Parts): identity, parts reversed, message absent; data: symbolic int in [0,2] and a symbolic byte from {a,b,c,<}; a three-message bundle (plural + two plain) loaded through the real newBundle from PO entries in 4 orders; plural message with {case 1}+{default} under catalogues with 1, 2 and 3 plural forms where the bundle's PluralCase returns an arbitrary index below the number of forms, or the English rule",
+    "bounds": "6 messages (text only; text + placeholders; repeated equal expressions; html tags; two expressions that differ only in parenthesisation; colliding placeholder base names) in 3 contexts (plain, inside a foreach, inside a called template) x 3 catalogues built with the real extraction functions (pomsg.Validate/Msgid/MsgidPlural -> newMessage -> soymsg.Parts): identity, parts reversed, message absent; data: symbolic int in [0,2] and a symbolic byte from {a,b,c,<}; pairs of messages that share an id (same text and placeholder names, different expressions) in one template; a three-message bundle (plural + two plain) loaded through the real newBundle from PO entries in 4 orders; plural message with {case 1}+{default} under catalogues with 1, 2 and 3 plural forms where the bundle's PluralCase returns an arbitrary index below the number of forms, or the English rule",
     "outside": "PO text syntax and file loading (robfig/gettext/po), locale fallback (x/text/language), the xgettext-soy main wrapper (its extract function is three calls which the harness mirrors), the JavaScript backend (no JS semantics in the engine); messages outside the dictionary; soymsg.Parts runs its regexp natively on concrete text",
     "assumptions": ["the expected value of a placeholder is what the real renderer prints for a template consisting of that expression alone (the evaluator itself is checked under C01)"],
     "level_text": "Bounded symbolic model checking of the extraction -> catalogue -> render pipeline for a message dictionary with symbolic data and a symbolic plural-form index: translated output is compared with the composition of the parts' own renderings.",
